@@ -32,7 +32,7 @@ static bool find_v(const expression_t& e, symbol_t& out)
 }
 static variable_t* var_named(std::list<variable_t>& vs, const char* n) { for (auto& x : vs) if (x.uid.get_name() == n) return &x; return nullptr; }
 
-extern "C" void harness_scopes()  /* vf: bounds=name_declared_at_any_subset_of_9_scope_levels(global_early/late,template_parameter|local,function_parameter|local,block,for-iteration,select,quantifier)_x_12_use_sites_x_3_quantifier_kinds_x_closed_quantifiers_in_declarations reach=end */
+extern "C" void harness_scopes()  /* vf: bounds=name_declared_at_any_subset_of_9_scope_levels(global_early/late,template_parameter|local,function_parameter|local,block,for-iteration,select,quantifier)_x_12_use_sites_x_nested_brace-less_iteration_x_3_quantifier_kinds_x_closed_quantifiers_in_declarations reach=end */
 {
     int use = vf_pick("!use", NUSE);
     // scopes visible at the use site, innermost first (the oracle's search order)
@@ -80,7 +80,10 @@ extern "C" void harness_scopes()  /* vf: bounds=name_declared_at_any_subset_of_9
     if (has[FL]) s += "  " + rng(FL) + " v = 0;\n";
     s += "  {\n";
     if (has[BL]) s += "   " + rng(BL) + " v = 0;\n";
-    s += "   for (" + nm(has[IT], "it") + " : " + brng(IT) + ") {" + (use == U_FOR ? " int u = v;" : " w = 0;") + " }\n";
+    // the loop body is either a block or directly a second, brace-less iteration (its binder never shadows v)
+    bool nested_loop = vf_pick("!nested_iteration", 2);
+    vf_assume(!nested_loop || use == U_FOR || use == U_BLOCK || use == U_FUN);   // only matters for uses inside or after the loops
+    s += "   for (" + nm(has[IT], "it") + " : " + brng(IT) + ") " + (nested_loop ? "for (it2 : int[0,1]) " : "") + "{" + (use == U_FOR ? " int u = v;" : " w = 0;") + " }\n";
     s += use == U_BLOCK ? "   { int u = v; }\n" : "";
     s += "  }\n";
     s += use == U_FUN ? "  { int u = v; }\n" : "";
